@@ -4,9 +4,9 @@ package main
 // TZ-SIGN, TZ-KEY, FMT-NANO.
 
 import (
-	"sort"
 	"fmt"
 	"go/token"
+	"sort"
 	"strings"
 
 	"golang.org/x/tools/go/ssa"
@@ -220,12 +220,7 @@ func ruleParseTime(c *Ctx) {
 						continue
 					}
 					// divided value flows back into the phi and is used as a multiplier after the loop
-					back := false
-					for _, e := range phi.Edges {
-						if e == ssa.Value(div) {
-							back = true
-						}
-					}
+					back := phiFedBy(phi, div)
 					usedAsMult := false
 					for _, r := range referrersOf(phi) {
 						if m, ok := r.(*ssa.BinOp); ok && m.Op == token.MUL && !l.Blocks[m.Block()] {
@@ -764,4 +759,26 @@ func ruleTSUTC(c *Ctx) {
 	if n == 0 {
 		c.OK("time/no-local-zone-arithmetic", "-", "no calendar arithmetic on a local-zone time in the time package's codecs")
 	}
+}
+
+// phiFedBy reports whether v is an incoming value of phi, directly or through the join phis of conditionals in between.
+func phiFedBy(phi *ssa.Phi, v ssa.Value) bool {
+	seen := map[*ssa.Phi]bool{}
+	var walk func(p *ssa.Phi) bool
+	walk = func(p *ssa.Phi) bool {
+		if seen[p] {
+			return false
+		}
+		seen[p] = true
+		for _, e := range p.Edges {
+			if e == v {
+				return true
+			}
+			if q, ok := e.(*ssa.Phi); ok && walk(q) {
+				return true
+			}
+		}
+		return false
+	}
+	return walk(phi)
 }
